@@ -166,4 +166,122 @@ theorem entry_link (b : St) (m : C10St) (hx : Idx b) (hv : ValOk b) (hz : ZeroOk
     · exact absurd h0 hv0
     · congr 1; omega
 
+/-! ## every event of consumer `a` moves consumer `a` -/
+
+theorem exitRel_get (s s' : CSt) (a : Nat) (c1 : Con) (v e : Nat) (h : exitRel s a c1 v e = some s')
+    (hlt : a < s.ct.length) :
+    getCon s' a = some { c1 with pc := .exitWait v e, mainOwns := !flagOf s.b a } := by
+  unfold exitRel at h
+  cases hst : step s.b (.selfRelSwap a) with
+  | none => simp [hst] at h
+  | some b' =>
+    simp [hst] at h; subst h
+    rw [getCon_setCon]
+    have : a < ({ s with b := b' } : CSt).ct.length := hlt
+    simp [this]
+
+/-- the events that belong to consumer `a` -/
+def Targets (e : CEv) (a : Nat) : Prop :=
+  e = .base (.addRefCS a) ∨ (∃ res v er, e = .base (.cb (.refcb a false res v er))) ∨ e = .snap a ∨ e = .watch a ∨
+  (∃ i v, e = .cbin a i v) ∨ (∃ i r, e = .cbout a i r) ∨ e = .check a ∨ e = .recheck a ∨ e = .waitCancel a ∨
+  e = .await a ∨ e = .awaitCancel a ∨ (∃ v x, e = .ret a v x) ∨ e = .envCancelCall a ∨ e = .goRel a ∨ e = .goCb a
+
+theorem own_trans_full (s s' : CSt) (e : CEv) (a : Nat) (c c' : Con) (hs : cstep s e = some s')
+    (h1 : getCon s a = some c) (h2 : getCon s' a = some c') (ht : Targets e a) : Trans s e a c c' := by
+  have hlt := getCon_lt s a c h1
+  have fin : ∀ (b' : St) (c1 : Con), s' = setCon { s with b := b' } a c1 → Trans s e a c c1 → Trans s e a c c' := by
+    intro b' c1 hs' htr
+    subst hs'
+    rw [getCon_setCon] at h2
+    have : a < ({ s with b := b' } : CSt).ct.length := hlt
+    simp [this] at h2; subst h2; exact htr
+  have finX : ∀ (c1 : Con) (v x : Nat), exitRel s a c1 v x = some s' →
+      Trans s e a c { c1 with pc := .exitWait v x, mainOwns := !flagOf s.b a } → Trans s e a c c' := by
+    intro c1 v x hx htr
+    have := exitRel_get s s' a c1 v x hx hlt
+    rw [h2] at this; cases this; exact htr
+  rcases ht with rfl | ⟨res, v, er, rfl⟩ | rfl | rfl | ⟨i, v, rfl⟩ | ⟨i, r, rfl⟩ | rfl | rfl | rfl | rfl | rfl |
+      ⟨v, x, rfl⟩ | rfl | rfl | rfl
+  · simp only [cstep] at hs
+    cases hst : step s.b (.addRefCS a) with
+    | none => simp [hst] at hs
+    | some b' =>
+      simp only [hst, h1] at hs
+      split at hs <;> simp at hs
+      rename_i hpc
+      exact fin b' _ hs.symm (.started a c hpc)
+  · simp only [cstep] at hs
+    cases hst : step s.b (.cb (.refcb a false res v er)) with
+    | none => simp [hst] at hs
+    | some b' =>
+      simp [hst, h1] at hs
+      exact fin b' _ hs.symm (.hook a c res v er)
+  · simp only [cstep, h1] at hs
+    split at hs <;> try simp at hs
+    rename_i hcond
+    split at hs
+    · split at hs <;> simp at hs
+      · rename_i hce hres
+        exact fin s.b _ hs.symm (.snapCall a c hcond.1 hce hres)
+      · rename_i hce hres
+        exact fin s.b _ hs.symm (.snapWait a c hcond.1 hce (by simpa using hres))
+    · rename_i hce
+      exact finX (snapped c) 0 c.ce hs (.snapErr a c hcond.1 hce)
+  · simp only [cstep, h1] at hs
+    split at hs <;> try simp at hs
+    all_goals
+      obtain ⟨_, hs⟩ := hs
+      exact fin s.b _ hs.symm (.watch a c)
+  · exact own_trans s s' _ a c c' hs h1 h2 (Or.inl ⟨i, v, rfl⟩)
+  · exact own_trans s s' _ a c c' hs h1 h2 (Or.inr (Or.inl ⟨i, r, rfl⟩))
+  · simp only [cstep, h1] at hs
+    split at hs <;> try simp at hs
+    rename_i r n ch hpc
+    split at hs
+    · rename_i hcan
+      exact finX c 0 9 hs (.checkCancel a r n ch c hpc hcan)
+    · rename_i hcan
+      simp at hs
+      exact fin s.b _ hs.symm (.checkGo a r n ch c hpc (by simpa using hcan))
+  · simp only [cstep, h1] at hs
+    split at hs <;> try simp at hs
+    rename_i r n ch hpc
+    split at hs
+    · rename_i hn
+      exact finX c 0 r hs (.recheckSame a r n ch c hpc hn)
+    · rename_i hn
+      simp at hs
+      exact fin s.b _ hs.symm (.recheckDiff a r n ch c hpc hn)
+  · simp only [cstep, h1] at hs
+    split at hs <;> try simp at hs
+    rename_i n ch hpc
+    exact finX c 0 9 hs.2 (.waitCancel a n ch c hpc hs.1)
+  · simp only [cstep, h1] at hs
+    split at hs <;> try simp at hs
+    rename_i hcond
+    split at hs <;> try simp at hs
+    rename_i v e hp
+    split at hs
+    · rename_i he
+      simp at hs
+      subst he
+      exact fin s.b _ hs.symm (.awaitOk a v c hcond.1 hp)
+    · rename_i he
+      exact finX c v e hs (.awaitErr a v e c hcond.1 hp he)
+  · simp only [cstep, h1] at hs
+    split at hs <;> try simp at hs
+    rename_i hcond
+    exact finX c 0 9 hs (.awaitCancel a c hcond.1 hcond.2)
+  · exact own_trans s s' _ a c c' hs h1 h2 (Or.inr (Or.inr (Or.inl ⟨v, x, rfl⟩)))
+  · exact own_trans s s' _ a c c' hs h1 h2 (Or.inr (Or.inr (Or.inr (Or.inl rfl))))
+  · simp only [cstep, h1] at hs
+    split at hs <;> try simp at hs
+    rename_i hgo
+    cases hst : step s.b (.selfRelSwap a) with
+    | none => simp [hst] at hs
+    | some b' =>
+      simp [hst] at hs
+      exact fin b' _ hs.symm (.goRel a c hgo)
+  · exact own_trans s s' _ a c c' hs h1 h2 (Or.inr (Or.inr (Or.inr (Or.inr rfl))))
+
 end UtilModel.RefCount.Cons
